@@ -1,10 +1,139 @@
 import Driver.Util
-open Lean Driver
+import GinjaxVerif.Model.C13
+open Lean Driver GinjaxVerif.ND GinjaxVerif.C13
 
+/-!
+Driver ops `c13.*`: the re-layouts of `MultiImage` on integer blocks.
+Wire format: array = `{"shape":[..],"data":[..]}`; multi image =
+`{"D":d,"is_torus":[..],"data":[{"k":k,"p":p,"block":array},..]}` (list order = dict order);
+geometric image = `{"D":d,"is_torus":[..],"parity":p,"data":array}`; signature / layout =
+`[[k,p,n],..]`.
+-/
 namespace Driver.C13
 
-def handle (op : String) (_j : Json) : R Json := do
+def asNDArr (j : Json) : R (NDArr Int) := do
+  let shape ← listF asNat j "shape"
+  let data ← listF asInt j "data"
+  if data.length != shape.prod then throw "array: data length does not match shape"
+  pure ⟨shape, data.toArray⟩
+
+def jNDArr (a : NDArr Int) : Json :=
+  Json.mkObj [("shape", jList jNat a.shape), ("data", Json.arr (a.data.map jInt))]
+
+def asMI (j : Json) : R (MI Int) := do
+  let d ← natF j "D"
+  let t ← listF asBool j "is_torus"
+  let blocks ← listF (fun e => do
+    let k ← natF e "k"
+    let p ← natF e "p"
+    let b ← field e "block" >>= asNDArr
+    pure ((k, p), b)) j "data"
+  pure ⟨d, t, blocks⟩
+
+def jMI (m : MI Int) : Json :=
+  Json.mkObj [("D", jNat m.D), ("is_torus", jList jBool m.isTorus),
+    ("data", jList (fun e => Json.mkObj [("k", jNat e.1.1), ("p", jNat e.1.2), ("block", jNDArr e.2)])
+      m.data)]
+
+def asGImg (j : Json) : R (GImg Int) := do
+  let d ← natF j "D"
+  let t ← listF asBool j "is_torus"
+  let p ← natF j "parity"
+  let a ← field j "data" >>= asNDArr
+  pure ⟨a, p, d, t⟩
+
+def jGImg (g : GImg Int) : Json :=
+  Json.mkObj [("D", jNat g.D), ("is_torus", jList jBool g.isTorus), ("parity", jNat g.parity),
+    ("data", jNDArr g.data)]
+
+def asSig (j : Json) : R (List (Key × Nat)) :=
+  asList (fun e => do
+    match ← asList asNat e with
+    | [k, p, n] => pure ((k, p), n)
+    | _ => throw "signature entry must be [k,p,n]") j
+
+def jSig (s : List (Key × Nat)) : Json :=
+  jList (fun e => jList jNat [e.1.1, e.1.2, e.2]) s
+
+def guard (ok : Bool) (what : String) : R Unit :=
+  if ok then pure () else throw s!"rejected: {what}"
+
+def handle (op : String) (j : Json) : R Json := do
   match op with
+  | "c13.to_vector" =>
+    let m ← field j "mi" >>= asMI
+    pure (jNDArr m.toVector)
+  | "c13.from_vector" =>
+    let m ← field j "mi" >>= asMI
+    let v ← field j "vector" >>= asNDArr
+    guard (MI.fromVectorOk v m) "from_vector"
+    pure (jMI (MI.fromVector v m))
+  | "c13.to_scalar" =>
+    let m ← field j "mi" >>= asMI
+    guard m.toScalarOk "to_scalar_multi_image"
+    pure (jMI m.toScalar)
+  | "c13.from_scalar" =>
+    let m ← field j "mi" >>= asMI
+    let layout ← field j "layout" >>= asSig
+    guard (m.fromScalarOk layout) "from_scalar_multi_image"
+    pure (jMI (m.fromScalar layout))
+  | "c13.concat" =>
+    let m ← field j "mi" >>= asMI
+    let o ← field j "other" >>= asMI
+    let axis ← natF j "axis"
+    guard (m.concatOk o axis) "concat"
+    pure (jMI (m.concat o axis))
+  | "c13.concat_inverse" =>
+    let m ← field j "mi" >>= asMI
+    let sig ← field j "sig" >>= asSig
+    let axis ← natF j "axis"
+    guard (m.concatInverseOk sig axis) "concat_inverse"
+    let r := m.concatInverse sig axis
+    pure (Json.mkObj [("a", jMI r.1), ("b", jMI r.2)])
+  | "c13.expand" =>
+    let m ← field j "mi" >>= asMI
+    let axis ← natF j "axis"
+    let size ← natF j "size"
+    guard (m.expandOk axis size) "expand"
+    pure (jMI (m.expand axis size))
+  | "c13.combine_axes" =>
+    let m ← field j "mi" >>= asMI
+    let axes ← listF asNat j "axes"
+    guard (m.combineAxesOk axes) "combine_axes"
+    pure (jMI (m.combineAxes axes))
+  | "c13.merge_axes" =>
+    let m ← field j "mi" >>= asMI
+    let axes ← listF asNat j "axes"
+    guard (m.mergeAxesOk axes) "merge_axes"
+    pure (jMI (m.mergeAxes axes))
+  | "c13.reshape_pmap" =>
+    let m ← field j "mi" >>= asMI
+    let n ← natF j "ndev"
+    let axis ← natF j "axis"
+    guard (m.reshapePmapOk n axis) "reshape_pmap"
+    pure (jMI (m.reshapePmap n axis))
+  | "c13.to_images" =>
+    let m ← field j "mi" >>= asMI
+    pure (jList jGImg m.toImages)
+  | "c13.from_images" =>
+    let imgs ← listF asGImg j "images"
+    let n ← natF j "n_lead"
+    let axis ← natF j "axis"
+    guard (MI.fromImagesOk imgs n axis) "from_images"
+    pure (jMI (MI.fromImages imgs n axis))
+  | "c13.copy" =>
+    let m ← field j "mi" >>= asMI
+    pure (jMI m.copy)
+  | "c13.tree_roundtrip" =>
+    let m ← field j "mi" >>= asMI
+    pure (jMI m.treeRoundtrip)
+  | "c13.gimg_tree_roundtrip" =>
+    let g ← field j "image" >>= asGImg
+    pure (jGImg g.treeRoundtrip)
+  | "c13.signature" =>
+    let m ← field j "mi" >>= asMI
+    pure (Json.mkObj [("signature", jSig m.signature), ("n_leading", jNat m.nLeading),
+      ("spatial", jList jNat m.spatialDims)])
   | _ => throw s!"unknown op {op}"
 
 end Driver.C13
